@@ -45,6 +45,17 @@ CHECKS = {
              'underflowing reals and in-band null sentinels are not judged; #+1 is read as #1.',
         technique='exhaustive enumeration of all short strings over an alphabet on the real scanner vs grammar recogniser',
         ref='3/C09'),
+    'C13': dict(
+        text='Explicit-state breadth-first search over operation histories on the real InstMgr (in-process C++ explorer, ASan+UBSan build): 36 symbolic '
+             'operations (Append new/explicit/duplicate id/same instance/released instance, Delete by node and by instance first/middle/last, ChangeState x 4, '
+             'ClearInstances, DeleteInstances, NextFileId) applied in every distinct state to depth 6 (thorough 7-8) for owning, non-owning and small-capacity '
+             'managers; a state is the shortest history replayed on a fresh manager, de-duplicated on all public query answers plus the hidden capacity/maxFileId '
+             'fields; after every transition every query of the property is compared with a list+dict reference model; the replayed canonical form is asserted '
+             'identical.',
+        note='Trusted: the reference model inside drivers/instmgr_mc.cc. Duplicate-id Append may be rejected or renumbered; only in-range indices are queried; '
+             'the "random long sequences" part of the quantifier is sampling and is not done.',
+        technique='explicit-state BFS over operation histories on the real object with state hashing + reference-model comparison',
+        ref='3/C13'),
     'C14': dict(
         text='Exhaustive enumeration of append histories on the real STEPfile: every sequence Read(A) Append(B) [Append(C)] over 8 reference patterns '
              '(plain, aggregate, select, complex part, forward ...) x 6 id patterns (identical dense ids, sparse, around 1000/2000, large, reversed); every '
